@@ -146,6 +146,13 @@ func buildPrim(cfg HistCfg) *Prim {
 			tg.genProofs()
 			p.worlds = append(p.worlds, th, tg)
 		}
+		// TL(k,from) = chain of H, tree leaf k taken from G(k), served only from transaction `from` on: every state
+		// before `from` is a state of H, the swapped leaf lies below the BlTxID of states the client may already trust
+		for from := k + 2; from <= n; from++ {
+			tl := mixFrom(fmt.Sprintf("TL%d-%d", k, from), p.H, g, k, k, 0, from)
+			tl.genProofs()
+			p.worlds = append(p.worlds, tl)
+		}
 	}
 	// harness self-check: the proof generator used for synthetic worlds reproduces the real store's proofs
 	chk := mix("H-regen", p.H, nil, 1, 0, 0)
@@ -365,22 +372,28 @@ func clientStepAPI(api string, trID uint64, trAlh H, r *Resp) (ok bool, proven *
 //     its own id through its Alh. Positions above the trusted id are the adversary's to choose (fork after the trusted
 //     state); an accepted header whose needed parts resolve to nothing known is reported.
 func (p *Prim) judge(tr stateRef, proven uint64, hd *store.TxHeader) string {
+	bad, _ := p.judgePos(tr, proven, hd)
+	return bad
+}
+
+// judgePos also returns the first position at which the accepted state contradicts the trusted one (0: none/unknown).
+func (p *Prim) judgePos(tr stateRef, proven uint64, hd *store.TxHeader) (string, int) {
 	a := hd.Alh()
 	if proven > uint64(tr.w.n) || proven == 0 {
-		return fmt.Sprintf("accepted id %d outside every known history", proven)
+		return fmt.Sprintf("accepted id %d outside every known history", proven), 0
 	}
 	if int(proven) < tr.id {
 		if want := tr.w.commit(tr.id, int(proven)); a != want {
-			return fmt.Sprintf("accepted Alh %x for tx %d, but the trusted state commits to %x there", a[:6], proven, want[:6])
+			return fmt.Sprintf("accepted Alh %x for tx %d, but the trusted state commits to %x there", a[:6], proven, want[:6]), int(proven)
 		}
-		return ""
+		return "", 0
 	}
 	t, bl := int(proven), int(hd.BlTxID)
 	if t == tr.id {
 		if a != tr.w.alh[t] {
-			return fmt.Sprintf("accepted Alh %x for the trusted tx %d itself (trusted Alh %x)", a[:6], t, tr.w.alh[t][:6])
+			return fmt.Sprintf("accepted Alh %x for the trusted tx %d itself (trusted Alh %x)", a[:6], t, tr.w.alh[t][:6]), t
 		}
-		return ""
+		return "", 0
 	}
 	var tree, chain []H // 1-based views
 	if bl > 0 && tr.id >= 1 {
@@ -391,7 +404,7 @@ func (p *Prim) judge(tr stateRef, proven uint64, hd *store.TxHeader) string {
 			}
 		}
 		if tree == nil {
-			return fmt.Sprintf("accepted a header for tx %d whose (BlTxID=%d, BlRoot=%x) is the tree of no known history", proven, bl, hd.BlRoot[:6])
+			return fmt.Sprintf("accepted a header for tx %d whose (BlTxID=%d, BlRoot=%x) is the tree of no known history", proven, bl, hd.BlRoot[:6]), 0
 		}
 	}
 	if tr.id > bl && tr.id < t { // positions bl < j <= trusted id lie on the chain below the header
@@ -402,7 +415,7 @@ func (p *Prim) judge(tr stateRef, proven uint64, hd *store.TxHeader) string {
 			}
 		}
 		if chain == nil {
-			return fmt.Sprintf("accepted a header for tx %d whose PrevAlh %x is no known state of tx %d", proven, hd.PrevAlh[:6], t-1)
+			return fmt.Sprintf("accepted a header for tx %d whose PrevAlh %x is no known state of tx %d", proven, hd.PrevAlh[:6], t-1), 0
 		}
 	}
 	for j := 1; j <= tr.id; j++ {
@@ -417,10 +430,10 @@ func (p *Prim) judge(tr stateRef, proven uint64, hd *store.TxHeader) string {
 		}
 		if y := tr.w.commit(tr.id, j); x != y {
 			return fmt.Sprintf("new state (%d, %x) commits to %x at position %d (%s), the trusted state %v to %x", proven, a[:6], x[:6], j,
-				map[bool]string{true: "through BlRoot", false: "through the linear chain"}[j <= bl], tr, y[:6])
+				map[bool]string{true: "through BlRoot", false: "through the linear chain"}[j <= bl], tr, y[:6]), j
 		}
 	}
-	return ""
+	return "", 0
 }
 
 func (p *Prim) claimName(proven uint64, hd *store.TxHeader) string {
@@ -448,6 +461,18 @@ func relOf(tr stateRef, r *Resp) string {
 	return "src>tgtBl"
 }
 
+// divOf says where an accepted forward state contradicts the trusted one: in the part of the tree the trusted header
+// itself commits to through its BlRoot (srcTree), in the leaves between the two BlTxIDs (gap), or on the chain.
+func divOf(tr stateRef, pos int, hd *store.TxHeader) string {
+	switch sb := tr.w.bl(tr.id); {
+	case pos == 0 || hd == nil || int(hd.BlTxID) < pos:
+		return ""
+	case pos <= sb:
+		return " div=srcTree"
+	}
+	return " div=gap"
+}
+
 // check evaluates one response; returns whether it was accepted (legitimately or not).
 func (p *job) check(class string, tr stateRef, r *Resp, alter func() string) (accepted bool, bad string) {
 	return p.checkAPI("VerifyDualProof", class, tr, r, alter)
@@ -464,12 +489,13 @@ func (p *job) checkAPI(api, class string, tr stateRef, r *Resp, alter func() str
 		p.t.rejected++
 		return false, ""
 	}
-	if bad = p.judge(tr, r.Proven, hd); bad == "" {
+	var pos int
+	if bad, pos = p.judgePos(tr, r.Proven, hd); bad == "" {
 		return true, ""
 	}
 	p.t.forged++
 	al := alter()
-	viol(fmt.Sprintf("%s api="+api+" case=%s trusted=%v claimed=%s alter=%s hist=%v", class, relOf(tr, r), tr, p.claimName(r.Proven, hd), al, p.cfg),
+	viol(fmt.Sprintf("%s api="+api+" case=%s trusted=%v claimed=%s alter=%s hist=%v", class, relOf(tr, r)+divOf(tr, pos, hd), tr, p.claimName(r.Proven, hd), al, p.cfg),
 		bad+fmt.Sprintf("\nclient holds (%d, %x); response proves tx %d; source header id=%d BlTxID=%d, target header id=%d BlTxID=%d", tr.id, tr.w.alh[tr.id][:6], r.Proven,
 			r.P.SourceTxHeader.ID, r.P.SourceTxHeader.BlTxID, r.P.TargetTxHeader.ID, r.P.TargetTxHeader.BlTxID),
 		map[string]any{"hist": p.cfg, "s": tr.id, "trusted": tr.w.name})
@@ -658,7 +684,10 @@ func partAlts(donors map[string]*store.DualProof, termwise bool) []Alt {
 			Alt{"ConsistencyProof=" + dn, func(r *Resp) { r.P.ConsistencyProof = cloneHs(d.ConsistencyProof) }},
 			Alt{"LastInclusionProof=" + dn, func(r *Resp) { r.P.LastInclusionProof = cloneHs(d.LastInclusionProof) }},
 			Alt{"TargetBlTxAlh=" + dn, func(r *Resp) { r.P.TargetBlTxAlh = d.TargetBlTxAlh }},
-			Alt{"TargetBlTxAlh+LastInclusionProof=" + dn, func(r *Resp) { r.P.TargetBlTxAlh = d.TargetBlTxAlh; r.P.LastInclusionProof = cloneHs(d.LastInclusionProof) }},
+			Alt{"TargetBlTxAlh+LastInclusionProof=" + dn, func(r *Resp) {
+				r.P.TargetBlTxAlh = d.TargetBlTxAlh
+				r.P.LastInclusionProof = cloneHs(d.LastInclusionProof)
+			}},
 			Alt{"LinearProof=" + dn, func(r *Resp) { r.P.LinearProof = cloneLin(d.LinearProof) }},
 			Alt{"LinearAdvanceProof=" + dn, func(r *Resp) { r.P.LinearAdvanceProof = cloneLAP(d.LinearAdvanceProof) }},
 			Alt{"all-proof-parts=" + dn, func(r *Resp) {
@@ -894,7 +923,9 @@ func (p *job) sessions(start stateRef, deep bool) {
 	}
 	step := func(tr stateRef, w *World, t int) (acc bool, bad string) {
 		for i, r := range resps(w, tr.id, t) {
-			a, b := p.check("accepts-fork", tr, r, func() string { return fmt.Sprintf("whole-response-of(%s,%d,%d)%s", w.name, tr.id, t, []string{"", "/tree-tx"}[i]) })
+			a, b := p.check("accepts-fork", tr, r, func() string {
+				return fmt.Sprintf("whole-response-of(%s,%d,%d)%s", w.name, tr.id, t, []string{"", "/tree-tx"}[i])
+			})
 			if i == 0 {
 				acc, bad = a, b
 			}
@@ -935,7 +966,7 @@ func (p *job) sessions(start stateRef, deep bool) {
 						}
 						if got, want := hd.Alh(), start.w.commit(start.id, j); got != want {
 							p.t.equiv++
-							viol(fmt.Sprintf("accepts-equivocation api=VerifyDualProof case=%s first-trusted=%v steps=%s:%d,%s:%d reread-tx=%d hist=%v", via, start, w.name, t, w.name, u, j, p.cfg),
+							viol(fmt.Sprintf("accepts-equivocation api=VerifyDualProof case=%s first-trusted=%v steps=%s:%d,%s:%d reread-tx=%d hist=%v", via+map[bool]string{true: " div=srcTree", false: " div=gap"}[j <= start.w.bl(start.id)], start, w.name, t, w.name, u, j, p.cfg),
 								fmt.Sprintf("session: the client trusts %v, so tx %d has Alh %x (BlTxID of tx %d is %d). It is shown tx %d, then tx %d of the adversary's material %s (every proof verifies, state advances). "+
 									"Then a proof of tx %d with Alh %x verifies against its state: two different transactions %d were accepted in one session.",
 									start, j, want[:6], start.id, start.w.bl(start.id), t, u, w.name, j, got[:6], j),
@@ -1008,4 +1039,3 @@ func runStore(cfgs []HistCfg, pairs bool) {
 		c.CapHit(fmt.Sprintf("store level: %d of %d (history, trusted state) jobs not run (time budget)", skipped, total))
 	}
 }
-
